@@ -29,7 +29,7 @@
      be registered too.  [texttable_dotted lower n = false] excludes exactly
      that class (c19_guard_is_needed shows it is needed). *)
 From Coq Require Import Sorting.Sorted.
-From Tab Require Import Model.Registry Model.Auto Spec.RegistrySpec Proofs.RegistryProofs Proofs.AutoProofs.
+From Tab Require Import Model.Registry Model.Auto Spec.RegistrySpec Proofs.RegistryProofs Proofs.AutoProofs Proofs.AutoFrame.
 
 (* Every listed name yields a renderer whose Render() of a good table
    succeeds - dotted names included (D19 on the pinned tree). *)
@@ -119,6 +119,45 @@ Theorem c19_resolution : forall lower r_csv r_html r_markdown r_json body reg s,
        = spec_resolve lower r_csv r_html r_markdown r_json body (named reg) s.
 Proof. exact wrap_resolve. Qed.
 Print Assumptions c19_resolution.
+
+(* Plain "texttable", in every ASCII letter case, renders with the package's
+   default decoration under EVERY registry - one in which the application has
+   re-registered the stock names included: the default is a constant of
+   texttable.Wrap, not a registry entry. *)
+Theorem c19_texttable_default_any_registry : forall lower r_csv r_html r_markdown r_json body,
+  lower_on_ascii lower -> forall reg v,
+  ascii_case_variant s_texttable v ->
+  render_auto lower r_csv r_html r_markdown r_json body reg v = text_render body text_wrap.
+Proof. exact texttable_default_renders. Qed.
+Print Assumptions c19_texttable_default_any_registry.
+
+(* Frame of a registration: RegisterDecorationName(n, d) - new name or
+   overwrite, stock name or not - leaves the rendering through every style
+   that cannot select n (n is no dotted prefix of the style nor of what follows
+   its first section) exactly as it was. *)
+Theorem c19_registration_frame : forall lower r_csv r_html r_markdown r_json body reg n d s,
+  ~ In n (selectable s) ->
+  render_auto lower r_csv r_html r_markdown r_json body (register n d reg) s
+  = render_auto lower r_csv r_html r_markdown r_json body reg s.
+Proof. exact registration_frame. Qed.
+Print Assumptions c19_registration_frame.
+
+(* ... and the renderer kind as well. *)
+Theorem c19_registration_frame_kind : forall lower r_csv r_html r_markdown r_json body reg n d s,
+  ~ In n (selectable s) ->
+  forall r r', wrap lower (register n d reg) s = Ok r -> wrap lower reg s = Ok r' ->
+  kind_of r = kind_of r'
+  /\ render r_csv r_html r_markdown r_json body r = render r_csv r_html r_markdown r_json body r'.
+Proof. exact registration_frame_kind. Qed.
+Print Assumptions c19_registration_frame_kind.
+
+(* The name just registered (dot-free, no package name) selects exactly the
+   decoration just registered, whatever it meant before: latest wins. *)
+Theorem c19_registered_selects_latest : forall lower reg n d,
+  nodot n -> plain_name lower n ->
+  wrap lower (register n d reg) n = Ok (RText (mkTT d)).
+Proof. exact registered_selects_latest. Qed.
+Print Assumptions c19_registered_selects_latest.
 
 (* non-vacuity: with "my.dotted" and "my" registered (70, 71), "my.dotted",
    "texttable.my.dotted.x" select 70, "MY.dotted" nothing, "CsV.x" csv; and
